@@ -878,23 +878,26 @@ Proof.
   intros c. cbn. split; [reflexivity | split; [reflexivity | left; reflexivity]].
 Qed.
 
+Lemma run_call_char w c cfg :
+  proj (run w (call_steps c) cfg) c = fold_left (cstep w c) call_labels (proj cfg c)
+  /\ forall c', c' <> c -> g_clients (run w (call_steps c) cfg) c' = g_clients cfg c'.
+Proof. exact (run_char w c call_labels cfg). Qed.
+
 (* the same facts, packaged for other properties (C21): what one call does to the root *)
+Local Strategy opaque [step run].
 Lemma call_summary w c o t cfg m hist :
   J (AOp c o :: t) cfg m hist ->
-  let cfg' := run w (call_steps c) cfg in
-  let r := last_res (c_done (g_clients cfg' c)) in
+  forall cfg' r, cfg' = run w (call_steps c) cfg -> r = last_res (c_done (g_clients cfg' c)) ->
   (result_eqb r ROk && result_eqb (guard w m o) ROk = true
    /\ g_refs cfg' = effect m o /\ J t cfg' (effect m o) (m :: hist))
   \/ (result_eqb r ROk && result_eqb (guard w m o) ROk = false
       /\ g_refs cfg' = m /\ seq_explained w m hist o r = true /\ J t cfg' m hist).
 Proof.
-  intros [Hm Hc]. cbn zeta.
-  set (cfg' := run w (call_steps c) cfg).
+  intros [Hm Hc] cfg' r0 Hcfg' Hr0.
   destruct (Hc c) as [Hp [Ht Hv]].
   destruct (g_clients cfg c) as [td p f v d] eqn:Ecl. cbn [c_pc c_todo c_view] in Hp, Ht, Hv. subst p.
   rewrite progs_of_op, N.eqb_refl in Ht. cbn [app] in Ht. subst td.
-  destruct (run_char w c call_labels cfg) as [H1 H2].
-  change (map (fun l => (c, l)) call_labels) with (call_steps c) in H1, H2. fold cfg' in H1, H2.
+  destruct (run_call_char w c cfg) as [H1 H2]. rewrite <- Hcfg' in H1, H2.
   unfold proj in H1. rewrite Ecl, Hm in H1.
   change {| c_todo := o :: progs_of t c; c_pc := PIdle; c_first := f; c_view := v; c_done := d |}
     with (mkc (o :: progs_of t c) PIdle f v d) in H1.
@@ -902,13 +905,15 @@ Proof.
   pose proof (call_fn_cases w m v o hist Hv) as Hcases.
   destruct (call_fn w m v o) as [[[r g'] v'] ch] eqn:CF.
   pose proof (f_equal (fun t => fst (fst t)) H1) as G. pose proof (f_equal snd H1) as C.
-  cbn [fst snd] in G, C. clear H1. rewrite C. unfold mkc. cbn [c_done]. rewrite last_res_snoc.
+  cbn [fst snd] in G, C. clear H1. rewrite C in Hr0. unfold mkc in Hr0. cbn [c_done] in Hr0.
+  rewrite last_res_snoc in Hr0. subst r0.
   assert (Hothers : forall c', c' <> c ->
             c_pc (g_clients cfg' c') = PIdle /\ c_todo (g_clients cfg' c') = progs_of t c'
             /\ In (c_view (g_clients cfg' c')) (m :: hist)).
   { intros c' Hne. rewrite H2 by exact Hne. destruct (Hc c') as [Q1 [Q2 Q3]].
     rewrite progs_of_op in Q2. assert (E : (c =? c') = false) by (apply N.eqb_neq; congruence).
     rewrite E in Q2. auto. }
+  clear Hcfg'.
   destruct Hcases as [[Ht1 [Hg' Hv']] | [Ht1 [Hg' [Hv' Hex]]]].
   - left. split; [exact Ht1 | split; [rewrite G; exact Hg'|]]. split; [rewrite G; exact Hg'|].
     intros c'. destruct (N.eq_dec c' c) as [->|Hne].
